@@ -123,6 +123,12 @@ func vSkeleton(id int) []string {
 		return vSweep(5 + 7*(id-100))
 	}
 	switch id {
+	case 20: // tiny concrete key sets for symbolic values (value lengths fork, keys do not)
+		return []string{"a", "b", "c"}
+	case 21:
+		return []string{"a", "ab", "b", "c"}
+	case 22:
+		return []string{"", "k", "ka", "kb", "z"}
 	case 0: // the README example
 		return []string{"abc", "abcd", "abd", "abde", "bc", "bcd", "bcde", "cde"}
 	case 1: // keys that are prefixes of other keys, the empty key, 0x00/0xff neighbours
